@@ -271,6 +271,60 @@ class Check:
         self.transitions += gen
         return out
 
+    # --- trace validation (code -> spec) -----------------------------------------------------
+    def validate_traces(self, spec, traces, cfg_text, what, shards=8, diag=True, timeout=1800):
+        """Validate recorded traces against a Trace*.tla spec.  Returns (accepted flags, diagnostics).
+        Each shard is one TLC run (-workers 1) over a JSON file of traces; a trace is accepted iff
+        TLC prints <<"ACCEPT", tid>>.  For rejected traces the longest matched prefix is obtained
+        by re-running the trace alone with the spec's Diag invariant (prints <<"AT", tid, l>>)."""
+        import re as _re
+        n = len(traces)
+        if n == 0:
+            return [], {}
+        shards = max(1, min(shards, n))
+        parts = [list(range(k, n, shards)) for k in range(shards)]
+        files = []
+        for k, idxs in enumerate(parts):
+            fp = os.path.join(self.tmp, f"traces_{spec}_{k}.json")
+            with open(fp, "w") as f:
+                json.dump([traces[i] for i in idxs], f)
+            files.append(fp)
+
+        def one(k):
+            return run_tlc(spec, cfg_text, workdir=self.tmp, workers=1, timeout=timeout, heap="3g", seed=self.seed,
+                           tag=f"trace_{spec}_{k}", env={"TRACE_FILE": files[k]}, want_emitted=False)
+        with ThreadPoolExecutor(max_workers=NPROC) as ex:
+            rs = list(ex.map(one, range(shards)))
+        accepted = [False] * n
+        gen = dist = 0
+        for k, r in enumerate(rs):
+            if r.violated is not None:
+                raise MachineryError(f"trace spec invariant {r.violated} violated in {what}:\n{r.raw_tail[-2000:]}")
+            require_ok(r, what)
+            gen += r.generated
+            dist += r.distinct
+            for line in r.printed:
+                m = _re.match(r'<<"ACCEPT", (\d+)>>', line)
+                if m:
+                    accepted[parts[k][int(m.group(1)) - 1]] = True
+        self.tlc_runs.append({"what": what, "spec": spec, "generated": gen, "distinct": dist, "traces": n,
+                              "accepted": sum(accepted), "wall_s": round(max(r.wall for r in rs), 2)})
+        self.states += dist
+        self.transitions += gen
+        diags = {}
+        if diag:
+            for i in [i for i in range(n) if not accepted[i]][:5]:
+                fp = os.path.join(self.tmp, f"trace_diag_{i}.json")
+                with open(fp, "w") as f:
+                    json.dump([traces[i]], f)
+                r = run_tlc(spec, cfg_text + "INVARIANT Diag\n", workdir=self.tmp, workers=1, timeout=600, heap="2g", seed=self.seed,
+                            tag=f"diag_{i}", env={"TRACE_FILE": fp}, want_emitted=False)
+                pos = [int(m.group(1)) for line in r.printed for m in [_re.match(r'<<"AT", \d+, (\d+)>>', line)] if m]
+                last = max(pos) if pos else 0
+                ev = traces[i]["events"]
+                diags[i] = {"matched_events": last - 1, "of": len(ev), "next_event": ev[last - 1] if 0 < last <= len(ev) else None}
+        return accepted, diags
+
     # --- verdict bookkeeping ---------------------------------------------------------------
     def violation(self, sig: dict, text: str, case=None):
         """sig: structured description (entry point, failing input class ...)."""
